@@ -198,7 +198,8 @@ def consume(ctx, cases, results, stats, name):
 
 def tree_key(c):
     t = c["tid"]
-    return "%s/%s" % (t["shape"], "+".join("%s.%s:%s>%s/%s%s" % (p["hs"], p["ho"], p["w"], p["ns"], p["id"], "!" if p["req"] else "")
+    return "%s/%s" % (t["shape"], "+".join("%s.%s:%s>%s/%s%s%s" % (p["hs"], p["ho"], p["w"], p["ns"], p["id"], "!" if p["req"] else "",
+                                                                     ("~" + p["dis"]) if p.get("dis") else "")
                                               for p in t["P"] if p["w"] != "none"))
 
 
@@ -331,7 +332,10 @@ def run(ctx):
         "only well-formed trees are judged: every self reference names an ID of its nearest enclosing scope, a table "
         "applied for a namespace contains every ID referenced in it (anything else is the documented "
         "BadArgumentError panic of a schema mis-built in Go), no operation is attempted on an unlinked reference",
-        "objects are map-based; leaves are strings; one-of discriminators are strings and not inlined",
+        "objects are map-based (plus one family of struct-mapped trees with declared defaults, judged on scope vs "
+        "inlined scope only); leaves are strings; one-of discriminators are strings and not inlined; disabled "
+        "properties (with / without reason) carry references: linked and validated like any other, rejected on "
+        "Unserialize, and values that set them go through Validate / Serialize of scope, inlined and rebuilt scope",
         "Inline unrolls %s levels; below that the reference is kept as the scope it resolves in, re-rooted at the "
         "referenced object (the only form that keeps its lexical meaning wherever the copy ends up)" % "2",
         "a model-vs-code disagreement on an input on which scope and inlined scope agree is drift (C02/C03 own the "
